@@ -161,6 +161,15 @@ theorem rewrite_out_of_range (pos : Int) (p buf : Bytes) (h : pos < 0 ∨ pos > 
 theorem rewrite_panics_iff (pos : Int) (p buf : Bytes) : rewrite pos p buf = none ↔ (pos < 0 ∨ pos > buf.length) :=
   rewrite_none_iff pos p buf
 
+/-- `ReWrite(pos, Bytes()[from:to])` — the payload aliases the buffer: the addressed bytes become the OLD contents of
+    the window (memmove semantics, also where the window and the destination overlap), everything else is unchanged -/
+theorem rewriteSelf_exact (pos frm to : Nat) (buf : Bytes) (h1 : frm ≤ to) (h2 : to ≤ buf.length)
+    (h3 : pos + (to - frm) ≤ buf.length) :
+    ∃ buf', rewriteSelf (pos : Int) frm to buf = some buf' ∧ buf'.length = buf.length ∧
+      (∀ j, j < to - frm → buf'[pos + j]? = buf[frm + j]?) ∧
+      (∀ i, i < pos ∨ pos + (to - frm) ≤ i → buf'[i]? = buf[i]?) :=
+  rewriteSelf_in_range pos frm to buf h1 h2 h3
+
 /-! ### (4) the stream reader decodes what the buffer reader decodes, however the source is fragmented -/
 
 /-- one typed read: ReaderX over any chunking `s` and BufferX over the concatenated bytes return the same value or
@@ -203,6 +212,33 @@ theorem stream_roundtrip_value (c : Cfg) (hc : Proved c) (v : Val) (hv : Valid v
   revert a
   cases (decStream c (tyOf v) s).1 <;> simp [Out.agree]
 
+/-- a whole list of written values read back through a stream, however fragmented; the stream is then exhausted -/
+theorem stream_codec_roundtrip (c : Cfg) (hc : Proved c) (vs : List Val) (hv : ∀ v ∈ vs, Valid v)
+    (hs : ∀ v ∈ vs, (tyOf v).streamable = true) (s : Src) (hflat : s.flat = vs.flatMap enc) :
+    (readAllStream c (vs.map tyOf) s).1 = vs.map .ok ∧ (readAllStream c (vs.map tyOf) s).2.flat = [] :=
+  stream_roundtrip_list c hc vs hv hs s hflat
+
+/-- what the oracle answers for `bigrt` (values of 1 MiB … 128 MiB, not materialised by the oracle): the value written is
+    read back followed by the marker byte, nothing is left, and the digest printed is the one of the pattern — through
+    the buffer, and (for `Proved c`) through every chunking of a stream -/
+theorem bigrt_answer (seed n : Nat) (hn : n < 2 ^ 32) :
+    readAll [.str, .u8] (writeAll [.str (pat seed n), .u8 7] newBuffer) = ([.ok (.str (pat seed n)), .ok (.u8 7)], []) ∧
+    digest (pat seed n) = digestPat seed n ∧
+    (∀ c, Proved c → ∀ s : Src, s.flat = writeAll [.str (pat seed n), .u8 7] newBuffer →
+      (readAllStream c [.str, .u8] s).1 = [.ok (.str (pat seed n)), .ok (.u8 7)] ∧ (readAllStream c [.str, .u8] s).2.flat = []) := by
+  have hv : ∀ v ∈ [Val.str (pat seed n), Val.u8 7], Valid v := by
+    intro v hm
+    simp at hm
+    rcases hm with rfl | rfl
+    · show (pat seed n).length < 2 ^ 32
+      rw [pat_length]; exact hn
+    · trivial
+  refine ⟨codec_roundtrip _ hv, (digestPat_eq seed n).symm, ?_⟩
+  intro c hc s hs
+  have hw := writeAll_valid [Val.str (pat seed n), Val.u8 7] newBuffer hv
+  have hflat : s.flat = [Val.str (pat seed n), Val.u8 7].flatMap enc := by rw [hs, hw]; simp [newBuffer]
+  exact stream_roundtrip_list c hc _ hv (by intro v hm; simp at hm; rcases hm with rfl | rfl <;> rfl) s hflat
+
 /-! ### non-vacuity -/
 
 example : Proved ⟨.full, .accept, true⟩ := by decide
@@ -224,6 +260,9 @@ example : decBuf .u32 [1, 0, 0] = (.err .empty, []) := by decide
 
 /-- an in-range rewrite -/
 example : rewrite 1 [0xff, 0xee] [1, 2, 3, 4, 5] = some [1, 0xff, 0xee, 4, 5] := by decide
+
+/-- moving a field inside the frame: overlapping window, old contents win -/
+example : rewriteSelf 2 0 6 [1, 2, 3, 4, 5, 6, 7, 8] = some [1, 2, 1, 2, 3, 4, 5, 6] := by decide
 
 /-- the repaired reader over one-byte chunks and over an EOF-with-data source -/
 example : decStream ⟨.full, .accept, true⟩ .u32 ⟨false, [[1], [0], [0], [0]]⟩ = (.ok (.u32 1), ⟨false, []⟩) := by decide
